@@ -150,6 +150,7 @@ func C01(p *Prog, r *Run) {
 	r.Rule("C01.3", "ordered insertion: structural mutators add genes and nodes only through geneInsert / nodeInsert; both helpers are the same algorithm modulo the key and return a list containing the new element", func() {
 		r.c01OrderedInsertion()
 		r.c01ScanBound()
+		r.c01SinglePointOrder()
 	})
 
 	r.Rule("C01.4", "crossover keeps children well-formed: interface nodes seeded, endpoints are child nodes chosen by the gene's own endpoint ids, no genetically equal link twice, child nodes enter through nodeInsert (shared with C04)", func() {
